@@ -7,6 +7,25 @@ VERIF = Path(__file__).resolve().parent.parent
 
 # property id -> (design section, what the theorems give, what is assumed)
 CLAIMS = {
+    "C04": ("8/C04",
+            "Lean 4 theorems for every strategy and any windows: Rfa.run rejects exactly n < 2 with ValueError; the returned "
+            "grid is the cut [n:-n] of the extended grid and equals oversample_linspace (rfa_grid_eq_oversample); both outputs "
+            "have length (m-1)*n+1; every n-th abscissa IS the input abscissa (rfa_knots: an identity, no arithmetic residue); "
+            "abscissae inside an interval are x_k + j*(x_{k+1}-x_k)/n, equally spaced and strictly increasing; values of the "
+            "piecewise-constant strategy and the last sample. Tie: three-step correspondence (parameters, adaptive windows, "
+            "values) with all six strategy classes and a user-supplied sampling function; container type / ndim / length / "
+            "bit-exact knots checked on the real objects.",
+            "'finite values' is definedness of every quotient in the model (no zero denominator, from C05/C07 lemmas) plus the "
+            "observed finiteness; CubicSpline values are external (SciPy); int(alpha*n) is compared on dyadic alpha only."),
+    "C07": ("8/C07",
+            "Lean 4 theorems: rfa_affine_y (all strategies, given windows) and adaptiveAt_affine_y / rfa_affine_y_adaptive "
+            "(windows recomputed, a != 0); rfa_affine_x (+ grid maps affinely, windows never read x), for c != 0; rfa_local / "
+            "rfa_local_adaptive / rfa_local_single (footprint 1 resp. 2 neighbours); fixed_linear_weights (weights independent "
+            "of the values, summing to one) and fixed_weights_nonneg (PowLike exponent). The shape functions used are tied to "
+            "funfit.py by translator T1 (TWV.Tie.Funfit, re-proved on every run). Tie: metamorphic correspondence - both runs "
+            "of every pair are compared with the model and the relations are checked on the real outputs.",
+            "the cubic spline's equivariance is SciPy's (checked on the real code only); adaptive strategies are exercised "
+            "with exactly representable maps, as the property's quantifier says."),
     "C12": ("8/C12",
             "Lean 4 theorems about the model of process.repeat written as the code computes it (offset read from the already "
             "shifted previous copy): closed form X(c*n+t) = x_t + c*P with P = span + last step, values tiled, length n*r, first "
@@ -70,7 +89,7 @@ NOT_YET = {
 ALL = [f"C{n:02d}" for n in range(1, 21)]
 
 # properties whose theorems, tie and check are complete enough to be claimed
-BUILT = ["C01", "C03", "C10", "C12", "C14", "C17"]
+BUILT = ["C01", "C03", "C04", "C07", "C10", "C12", "C14", "C17"]
 
 
 
